@@ -596,6 +596,33 @@ func (a *provAn) call(c *ast.CallExpr) []pv {
 		a.bind(l.Type, c.Args)
 		return a.fn(l).rets
 	}
+	// standard-library functions whose slice semantics are part of their documented contract
+	switch name := provCalleeName(fun); provStdKind(name) {
+	case provStdAppend: // like append(arg0, …): the result views arg0's array (or a fresh one)
+		if len(c.Args) > 0 {
+			v := a.eval(c.Args[0])
+			for _, arg := range c.Args[1:] {
+				a.eval(arg)
+			}
+			if v.self == pNone {
+				v.self = pFresh
+			}
+			return []pv{v}
+		}
+	case provStdFresh: // always a newly allocated copy
+		for _, arg := range c.Args {
+			a.eval(arg)
+		}
+		return []pv{{pFresh, pNone}}
+	case provStdSub: // a sub-slice of arg0
+		if len(c.Args) > 0 {
+			v := a.eval(c.Args[0])
+			for _, arg := range c.Args[1:] {
+				a.eval(arg)
+			}
+			return []pv{v}
+		}
+	}
 	// external: arguments are evaluated (and assumed to be only read), the result is UNKNOWN
 	// unless its type says it cannot view a buffer
 	for _, arg := range c.Args {
@@ -618,6 +645,32 @@ func (a *provAn) call(c *ast.CallExpr) []pv {
 		}
 	}
 	return []pv{{pUnknown, pUnknown}, {pUnknown, pUnknown}, {pUnknown, pUnknown}, {pUnknown, pUnknown}}
+}
+
+const (
+	provStdOther = iota
+	provStdAppend
+	provStdFresh
+	provStdSub
+)
+
+// provStdKind classifies the few standard-library functions whose result is, by their documented
+// contract, arg0 extended in place (Append*), a fresh copy (Clone, Join, Repeat, Concat) or a
+// sub-slice of arg0 (Trim*).  Everything else outside the module stays UNKNOWN.
+func provStdKind(name string) int {
+	pkg, fn := name, ""
+	if k := strings.LastIndex(name, "."); k >= 0 {
+		pkg, fn = name[:k], name[k+1:]
+	}
+	switch {
+	case strings.HasPrefix(fn, "Append") && (strings.HasPrefix(pkg, "binary") || pkg == "strconv" || pkg == "fmt" || pkg == "utf8"):
+		return provStdAppend
+	case (pkg == "bytes" || pkg == "slices") && (fn == "Clone" || fn == "Join" || fn == "Repeat" || fn == "Concat"):
+		return provStdFresh
+	case pkg == "bytes" && strings.HasPrefix(fn, "Trim"):
+		return provStdSub
+	}
+	return provStdOther
 }
 
 func isBuiltinName(n string) bool {
